@@ -96,6 +96,7 @@ def check(scratch, nat, a, t0):
         log("  [%s] %d summaries, %d paths; translator validation: %d vectors agree with the real code" % (profile, len(summ), info["paths"][profile], n))
         # vacuity: every mutating method has a path on which the shared cell really changes length as the model says
         wit = 0
+        vacuous = []
         expect = {"push": lambda s: s.n + 1, "clear": lambda s: 0 if s.n else None, "remove": lambda s: s.n - 1 if s.n else None,
                   "join": lambda s: s.n + s.m if s.m else None}
         for s in summ:
@@ -103,12 +104,17 @@ def check(scratch, nat, a, t0):
             if want is None:
                 continue
             if not any(p[1] == "ok" and len(p[3]) == want for p in s.paths):
-                raise V.Inconclusive("vacuity: list.%s[%s] has no path that changes the shared list" % (s.method, s.arm))
+                vacuous.append("vacuity: list.%s[%s] has no path that changes the shared list" % (s.method, s.arm))
+                continue
             wit += 1
         info["witnesses"][profile] = wit
         pf = []
         for s in summ:
             pf += L.check_summary(s, profile, qs, timeout_ms, V.seed(), "C13")
+        # a missing witness is an encoding problem only if the obligations of that run found nothing: when the real code no longer
+        # changes the list (a defect), the obligations say so and their counterexample is replayed below
+        if vacuous and not pf:
+            raise V.Inconclusive(vacuous[0])
         # map / filter: the built-in together with its callback bridge, callback results arbitrary
         bk = BR.BridgeKernels(lk.mf, oc, scratch.repo, seed=V.seed())
         info["functions"][profile].update(bk.encoded_functions())
